@@ -52,6 +52,15 @@ def generate():
                     fs0 = with_attr(plain_fields(shape, 3, "u8"), 0, "#[educe(%s(rank = 5))]" % t)
                     yield ("rank spellings (limits of isize, next to other parameters)",
                            [item("struct", "S", ["#[educe(%s)]" % t], [("", shape, [], with_attr(fs0, 2, "#[educe(%s(%s%s%s))]" % (t, pre, f, post)))]) for f in forms])
+        # integer notations of one value (hex, binary, octal, digit separators, suffixes), alone and before / after other parameters
+        for v, notations in [(16, ["16", "0x10", "0b1_0000", "0o20", "16isize", "1_6", "16_isize"]),
+                             (-16, ["-16", "-0x10", "-0b1_0000", "-0o20", "-16isize", "-1_6"]),
+                             (-4096, ["-4096", "-4_096", "-0x1000", "-0x10_00", "-4096i64"])]:
+            forms = ["rank = %s" % n for n in notations] + ["rank(%s)" % n for n in notations] + ['rank = "%d"' % v]
+            for pre, post in [("", ""), ("", ", method = m"), ("", ", ignore = false"), ("method(m), ", ""), ("ignore = false, ", ", method(m)")]:
+                for shape in SHAPES:
+                    yield ("rank spellings (integer notations)",
+                           [item("struct", "S", ["#[educe(%s)]" % t], [("", shape, [], with_attr(plain_fields(shape, 3, "u8"), 1, "#[educe(%s(%s%s%s))]" % (t, pre, f, post)))]) for f in forms])
         # both traits educed: the attribute may be carried by either
         for label, mk, shape in field_hosts(["#[educe(PartialOrd, Ord)]"]):
             yield ("Ord/PartialOrd carrier", [mk("#[educe(%s(rank = 1, method(m)))]" % c, 1) for c in ("Ord", "PartialOrd")])
@@ -100,9 +109,10 @@ def generate():
         yield ("type name spellings (raw identifier)", [item("struct", "S", ["#[educe(%s)]" % a.replace("X", "r#Match")], [("", shape, [], fs)]) for a in custom + ['Debug(rename("X"))']])
     # ---- bound
     for t in ["Debug", "Clone", "PartialEq", "Hash", "Ord", "PartialOrd", "Default", "Copy", "Eq"]:
-        groups = [["bound(T: Copy)", 'bound = "T: Copy"', 'bound("T: Copy")', "bound(T: Copy,)"],
-                  ["bound(T: Copy, U: Clone)", 'bound = "T: Copy, U: Clone"', 'bound("T: Copy, U: Clone")'],
-                  ["bound = false", "bound(false)", 'bound = ""', 'bound("")', "bound()"],
+        groups = [["bound(T: Copy)", 'bound = "T: Copy"', 'bound("T: Copy")', "bound(T: Copy,)", 'bound = "T: Copy,"', 'bound("T: Copy,")', 'bound = " T : Copy "'],
+                  ["bound(T: Copy, U: Clone)", 'bound = "T: Copy, U: Clone"', 'bound("T: Copy, U: Clone")', 'bound = "T: Copy, U: Clone,"', "bound(T: Copy, U: Clone,)",
+                   'bound = "T: Copy,U: Clone"'],
+                  ["bound = false", "bound(false)", 'bound = ""', 'bound("")', "bound()", 'bound = " "', 'bound("  ")'],
                   [None, "bound = true", "bound(true)"],
                   ["bound(*)"]]
         for g in groups:
@@ -113,7 +123,7 @@ def generate():
             if len(srcs) > 1:
                 yield ("bound spellings", srcs)
     yield ("bound spellings", [item("struct", "S", ["#[educe(Into(u8, %s))]" % b], [("", "tuple", [], [([], None, "T")])], "<T>")
-                               for b in ["bound(T: Copy)", 'bound = "T: Copy"', 'bound("T: Copy")']])
+                               for b in ["bound(T: Copy)", 'bound = "T: Copy"', 'bound("T: Copy")', 'bound = "T: Copy,"', "bound(T: Copy,)"]])
     # ---- Default expressions and `new`
     for e in ["5", "1 + 1", "u8::MAX", "7u8"]:
         forms = ["Default = %s" % e, "Default(expression = %s)" % e, "Default(expr = %s)" % e, "Default(expression(%s))" % e, "Default(expr(%s))" % e]
